@@ -123,6 +123,12 @@ def texMatch (pt : PText) (s : List Tok) : Option (List (List Tok) × List Tok) 
   | none => none
   | some s' => texArgs pt.params s'
 
+/-- the next non-blank token is not a math shift -/
+def noMathHead (s : List Tok) : Bool :=
+  match skipBlanks s with
+  | t :: _ => !t.isMath
+  | [] => true
+
 /-- NF-prog 3 for one call: the text matched by a delimited parameter does not contain the
     first token of its delimiter (at any depth); arguments contain no math shifts -/
 def nf3Args : List (List Tok) → List Tok → Bool
@@ -130,7 +136,7 @@ def nf3Args : List (List Tok) → List Tok → Bool
   | [] :: ds, s =>
     match texUndelimited s with
     | none => true
-    | some (a, r) => !(skipBlanks s).head!.isMath && nf3Args ds r
+    | some (_, r) => noMathHead s && nf3Args ds r
   | (d0 :: dr) :: ds, s =>
     match texScan (d0 :: dr) 0 s with
     | none => true
@@ -151,11 +157,17 @@ def texOptional (dflt : List Tok) (s : List Tok) : Option (List Tok × List Tok)
                else some (dflt, t :: ts)
   | [] => some (dflt, [])
 
+/-- a bracket character of any category (plasTeX's `readGrouping` compares the character only) -/
+def isAnyBracket : Tok → Bool
+  | .ch _ 91 => true
+  | .ch _ 93 => true
+  | _ => false
+
 def nf3Optional (s : List Tok) : Bool :=
   match skipBlanks s with
   | t :: ts => if isLBrack t then
       (match texScan [rBrack] 0 ts with
-       | some (p, _) => !p.contains rBrack && !p.any isLBrack
+       | some (p, _) => !p.any isAnyBracket
        | none => true) else true
   | [] => true
 
@@ -179,10 +191,12 @@ def texLatexArgs (nargs : Nat) (opt : Option (List Tok)) (s : List Tok) : Option
 /-- parameter text: `#k` must appear in order; returns (literal run, delimiters of the following parameters) -/
 def parsePT : Nat → List Tok → Option (List Tok × List (List Tok))
   | _, [] => some ([], [])
-  | _, [t] => if t.isParam then none else some ([t], [])
+  | _, [t] => if t.isParam || t.isEl then none else some ([t], [])
   | k, t :: u :: us =>
     if t.isParam then
-      if u = digitTok k ∧ 1 ≤ k ∧ k ≤ 9 then (parsePT (k + 1) us).map fun r => ([], r.1 :: r.2) else none
+      -- the parameter character of the macro language is `#` (no category-code changes in C02's programs)
+      if t = hashTok ∧ u = digitTok k ∧ 1 ≤ k ∧ k ≤ 9 then (parsePT (k + 1) us).map fun r => ([], r.1 :: r.2) else none
+    else if t.isEl then none     -- an expanded macro instance is not a TeX token
     else (parsePT k (u :: us)).map fun r => (t :: r.1, r.2)
 
 def parsePText (ts : List Tok) : Option PText := (parsePT 1 ts).map fun r => ⟨r.1, r.2⟩
@@ -197,11 +211,12 @@ def parseBody (n : Nat) : List Tok → Option (List BItem)
   | [t] => if t.isParam then none else some [.tok t]
   | t :: u :: us =>
     if t.isParam then
-      match u with
-      | .ch 6 c => (parseBody n us).map (.hash c :: ·)
-      | u => match digitOf u with
-        | some k => if k ≤ n then (parseBody n us).map (.par k :: ·) else none
-        | none => none
+      if t = hashTok then
+        if u = hashTok then (parseBody n us).map (.hash 35 :: ·)
+        else match digitOf u with
+          | some k => if k ≤ n then (parseBody n us).map (.par k :: ·) else none
+          | none => none
+      else none
     else (parseBody n (u :: us)).map (.tok t :: ·)
 
 /-! ## the interpreter -/
@@ -249,14 +264,33 @@ def texCall (pt : PText) (body : List BItem) (s : List Tok) : Except TErr (List 
   | some (args, rest) =>
     if nf3 pt s then .ok (texSubst body args, rest) else .error (.outside "NF3: delimiter token inside the argument")
 
+/-- NF-prog for the mandatory arguments: none of them starts with a math shift -/
+def nf3Mandatory : Nat → List Tok → Bool
+  | 0, _ => true
+  | n + 1, s =>
+    match texUndelimited s with
+    | none => true
+    | some (_, r) => noMathHead s && nf3Mandatory n r
+
+/-- one call of a `\newcommand` macro: optional first argument (default when the next non-blank token is not `[`),
+    then the mandatory arguments, then substitution -/
 def texLatexCall (nargs : Nat) (opt : Option (List Tok)) (body : List BItem) (s : List Tok) :
     Except TErr (List Tok × List Tok) :=
-  match texLatexArgs nargs opt s with
-  | none => .error (.outside "missing argument")
-  | some (args, rest) =>
-    if (opt.isNone || nf3Optional s) && nf3Args (List.replicate (nargs - (if opt.isSome then 1 else 0)) [])
-        (match opt with | some d => ((texOptional d s).map (·.2)).getD [] | none => s)
-    then .ok (texSubst body args, rest) else .error (.outside "NF3: bracket inside the optional argument")
+  match opt with
+  | none =>
+    match texMandatory nargs s with
+    | none => .error (.outside "missing argument")
+    | some (args, rest) =>
+      if nf3Mandatory nargs s then .ok (texSubst body args, rest) else .error (.outside "NF: math shift as argument")
+  | some d =>
+    match texOptional d s with
+    | none => .error (.outside "missing ]")
+    | some (a, r) =>
+      match texMandatory (nargs - 1) r with
+      | none => .error (.outside "missing argument")
+      | some (args, rest) =>
+        if nf3Optional s && nf3Mandatory (nargs - 1) r then .ok (texSubst body (a :: args), rest)
+        else .error (.outside "NF3: bracket inside the optional argument")
 
 mutual
 /-- expand the control sequence `name` whose token has just been read (`none` = not expandable) -/
@@ -308,6 +342,10 @@ def spanNoBg : List Tok → List Tok × List Tok
   | [] => ([], [])
   | t :: ts => if t.isBg then ([], t :: ts) else let r := spanNoBg ts; (t :: r.1, r.2)
 
+def startsWithBlank : List Tok → Bool
+  | t :: _ => t.isSpace
+  | [] => false
+
 /-- `\def\name<parameter text>{<replacement text>}` -/
 def texReadDef (s : List Tok) : Except TErr (Name × TMeaning × List Tok) :=
   match texRToken s with
@@ -317,6 +355,9 @@ def texReadDef (s : List Tok) : Except TErr (Name × TMeaning × List Tok) :=
     match sp.2 with
     | [] => .error (.outside "\\def without replacement text")
     | _ :: afterBg =>
+      -- a parameter text that starts with a blank cannot be written after a control word (the tokenizer skips
+      -- blanks there) and plasTeX skips it: outside the normal form
+      if startsWithBlank sp.1 then .error (.outside "parameter text starts with a blank") else
       match parsePText sp.1, texGroup 0 afterBg with
       | some pt, some (btoks, rest) =>
         -- the parameter text of a definition read from a file has no leading blank (the tokenizer
@@ -370,14 +411,17 @@ def texReadNewcommand (s : List Tok) : Except TErr (Name × TMeaning × List Tok
       | [] => .error (.outside "\\newcommand without body")
   | _ => .error (.outside "\\newcommand needs a control sequence")
 
+/-- TeX's "optional equals": an `=` of category 12, then at most one blank -/
+def optEquals : List Tok → List Tok
+  | [] => []
+  | t :: r => if t = .ch 12 61 then (match r with | u :: r' => if u.isSpace then r' else u :: r' | [] => []) else t :: r
+
 /-- `\let\a=\b` : optional `=` and one optional blank -/
 def texReadLet (s : List Tok) : Option (Name × Tok × List Tok) :=
   match texRToken s with
   | none => none
   | some (n, r) =>
-    let r := skipBlanks r
-    let r := match r with | .ch 12 61 :: r' => (match r' with | .ch 10 _ :: r'' => r'' | _ => r') | _ => r
-    match r with
+    match optEquals (skipBlanks r) with
     | t :: r' => some (n, t, r')
     | [] => none
 
@@ -386,8 +430,15 @@ def visibleTok : Tok → List Nat
   | .ch 12 c => [c]
   | _ => []
 
-/-- the main control: expand, or execute the unexpandable command / typeset the character -/
-def texRun : Nat → TSt → Except TErr (List Nat)
+/-- NF-prog: the programs of the macro language define their own names; a name currently bound to a primitive is never redefined -/
+def primBound (t : Table) (n : Name) : Bool :=
+  match t.lookup n with
+  | some (.prim _) => true
+  | _ => false
+
+/-- the main control: expand, or execute the unexpandable command / typeset the character.
+    `ok` restricts the definitions a run may make (used to state theorems about fragments; `texProgram` uses no restriction) -/
+def texRun (ok : Name → TMeaning → Bool) : Nat → TSt → Except TErr (List Nat)
   | 0, _ => .error .fuel
   | fuel + 1, st =>
     if st.input.length > 4000 then .error .fuel else
@@ -395,57 +446,68 @@ def texRun : Nat → TSt → Except TErr (List Nat)
     | [] => .ok []
     | .el _ :: _ => .error (.outside "not a TeX token")
     | .ch cat c :: rest =>
-      if cat = 11 ∨ cat = 12 then (texRun fuel { st with input := rest }).map (c :: ·)
-      else if cat = 10 then texRun fuel { st with input := rest }
-      else if cat = 1 then texRun fuel { st with input := rest, saved := st.cur :: st.saved }
+      if cat = 11 ∨ cat = 12 then (texRun ok fuel { st with input := rest }).map (c :: ·)
+      else if cat = 10 then texRun ok fuel { st with input := rest }
+      else if cat = 1 then texRun ok fuel { st with input := rest, saved := st.cur :: st.saved }
       else if cat = 2 then
         match st.saved with
         | [] => .error (.outside "too many }")
-        | t :: sv => texRun fuel { input := rest, cur := t, saved := sv }
+        | t :: sv => texRun ok fuel { input := rest, cur := t, saved := sv }
       else .error (.outside "character outside the macro language")
     | .cs n :: rest =>
       match st.cur.lookup n with
       | none => .error (.outside "undefined control sequence")
-      | some (.prim .relax) => texRun fuel { st with input := rest }
+      | some (.prim .relax) => texRun ok fuel { st with input := rest }
       | some (.prim .endcsname) => .error (.outside "extra \\endcsname")
-      | some (.prim .begingroup) => texRun fuel { st with input := rest, saved := st.cur :: st.saved }
+      | some (.prim .begingroup) => texRun ok fuel { st with input := rest, saved := st.cur :: st.saved }
       | some (.prim .endgroup) =>
         match st.saved with
         | [] => .error (.outside "extra \\endgroup")
-        | t :: sv => texRun fuel { input := rest, cur := t, saved := sv }
+        | t :: sv => texRun ok fuel { input := rest, cur := t, saved := sv }
       | some (.prim .def_) =>
         match texReadDef rest with
         | .error e => .error e
-        | .ok (nm, m, rest') => texRun fuel (assignLocal nm m { st with input := rest' })
+        | .ok (nm, m, rest') =>
+          if primBound st.cur nm then .error (.outside "redefinition of a primitive of the macro language")
+          else if ok nm m then texRun ok fuel (assignLocal nm m { st with input := rest' })
+          else .error (.outside "definition outside the fragment under consideration")
       | some (.prim .gdef) =>
         match texReadDef rest with
         | .error e => .error e
-        | .ok (nm, m, rest') => texRun fuel (assignGlobal nm m { st with input := rest' })
+        | .ok (nm, m, rest') =>
+          if primBound st.cur nm then .error (.outside "redefinition of a primitive of the macro language")
+          else if ok nm m then texRun ok fuel (assignGlobal nm m { st with input := rest' })
+          else .error (.outside "definition outside the fragment under consideration")
       | some (.prim .newcommand) =>
         match texReadNewcommand rest with
         | .error e => .error e
         | .ok (nm, m, rest') =>
           if (st.cur.lookup nm).isSome then .error (.outside "\\newcommand of a defined name")
-          else texRun fuel (assignLocal nm m { st with input := rest' })
+          else texRun ok fuel (assignLocal nm m { st with input := rest' })
       | some (.prim .renewcommand) =>
         match texReadNewcommand rest with
         | .error e => .error e
         | .ok (nm, m, rest') =>
           if (st.cur.lookup nm).isNone then .error (.outside "\\renewcommand of an undefined name")
-          else texRun fuel (assignLocal nm m { st with input := rest' })
+          else if primBound st.cur nm then .error (.outside "redefinition of a primitive of the macro language")
+          else texRun ok fuel (assignLocal nm m { st with input := rest' })
       | some (.prim .let_) =>
         match texReadLet rest with
         | some (nm, .cs src, rest') =>
           match st.cur.lookup src with
-          | some m => texRun fuel (assignLocal nm m { st with input := rest' })
+          | some m =>
+            if primBound st.cur nm then .error (.outside "redefinition of a primitive of the macro language")
+            else if ok nm m then texRun ok fuel (assignLocal nm m { st with input := rest' })
+            else .error (.outside "definition outside the fragment under consideration")
           | none => .error (.outside "\\let to an undefined control sequence")
         | _ => .error (.outside "\\let to a character")
       | some _ =>
         match texExpand fuel st.cur n rest with
         | .error e => .error e
         | .ok none => .error (.outside "unexpected unexpandable")
-        | .ok (some inp) => texRun fuel { st with input := inp }
+        | .ok (some inp) => texRun ok fuel { st with input := inp }
 
-def texProgram (fuel : Nat) (p : List Tok) : Except TErr (List Nat) := texRun fuel ⟨p, primTable, []⟩
+/-- the whole macro language: no restriction on definitions -/
+def texProgram (fuel : Nat) (p : List Tok) : Except TErr (List Nat) := texRun (fun _ _ => true) fuel ⟨p, primTable, []⟩
 
 end PlasVerif.Spec.TeXMacro
